@@ -8,7 +8,7 @@ from collections.abc import Sequence
 from dataclasses import dataclass, Field, MISSING
 from datetime import datetime
 from functools import cached_property, lru_cache
-from types import NoneType
+from types import NoneType, UnionType
 from copy import copy
 
 from typing_extensions import (
@@ -148,9 +148,9 @@ class WrappedField:
     @cached_property
     def is_optional(self):
         origin = get_origin(self.resolved_type)
-        if origin not in [Union, Optional]:
+        if origin not in [Union, Optional, UnionType]:
             return False
-        if origin == Union:
+        if origin in [Union, UnionType]:
             args = get_args(self.resolved_type)
             return len(args) == 2 and NoneType in args
         return True
@@ -160,7 +160,10 @@ class WrappedField:
         if not self.is_container and not self.is_optional:
             raise ValueError("Field is not a container")
         if self.is_optional:
-            return get_args(self.resolved_type)[0]
+            # the member that is not None, wherever it stands (`Union[None, X]`, `None | X`)
+            return next(
+                arg for arg in get_args(self.resolved_type) if arg is not NoneType
+            )
         else:
             try:
                 return get_args(self.resolved_type)[0]
